@@ -17,6 +17,9 @@ func init() {
 		c14Pad(c)
 		c14Decode(c)
 		c14Hashed(c)
+		// rsaDecrypt writes the RSA result through crypto.FillBytes: an altered
+		// ciphertext must come back as "does not fit", never as a panic
+		cFillBytesGuard(c, "C14.R3")
 	})
 }
 
